@@ -204,6 +204,9 @@ def check(db, rep):
     # ------------------------------------------------------------------ r6
     r6 = rep.rule('r6', 'NO-FAULT: throwing operations of the reference parser are guarded (noexcept + at() on a possibly empty token; stoi on an unbounded digit string)', 3)
     _no_fault(db, r6)
+    _scan_evaluated(db, rep)
+    _offset_faithful(db, rep)
+    _stored_valid(db, rep)
     _write_back_and_resolve(db, rep)
 
 
@@ -427,3 +430,208 @@ def _write_back_and_resolve(db, rep):
         r8.violation('ResolveAll', '%s:%d' % (g.file, g.line), bad)
     else:
         r8.ok('ResolveAll', 'every reference resolved exactly once, entities first, on %d lists of up to 3 references' % cases, '%s:%d' % (g.file, g.line))
+
+
+# ---------------------------------------------------------------------------------------------- r9: the scan, evaluated
+def _scan_evaluated(db, rep):
+    """Reference::ExtractAll (ReferenceStart / ReferenceEnd / NextReference, the UTF-8 iterator and Substr, all interpreted from their source)
+    on every text assembled from a few pieces - valid references, '@', '@{' without an end, braces, one- and two-byte letters - against the
+    definition: exactly the well-formed @{...} occurrences, left to right, as code-point ranges. Only the verdict whether the text between
+    '@{' and its matching '}' is a well-formed reference is supplied (decided by r1/r6 for the parser itself)."""
+    import itertools
+    r9 = rep.rule('r9', 'SCAN-EVALUATED: ExtractAll finds exactly the well-formed @{...} occurrences, in order, with their code-point ranges, whatever precedes them (a run of @, an unterminated @{, multi-byte text)', 1)
+    ea = db.fn(L + 'Reference::ExtractAll', required=False)
+    if ea is None:
+        r9.broken('anchor vanished: Reference::ExtractAll')
+        return
+    VALID = ('@{X1|nomn}', '@{-1|basic}')
+    thorough = rep.tier == 'thorough'
+    pieces = list(VALID) + ['@', '@{', 'a', 'я', '}', ' ', '@{oops}'] + (['{', '@{}', 'ℬ'] if thorough else [])
+
+    def oracle(text):
+        """list of (start, finish) or None when the definition leaves the text open (an ill-formed balanced marker that contains another marker)"""
+        out, i = [], 0
+        while i < len(text):
+            if text[i] == '@' and i + 1 < len(text) and text[i + 1] == '{':
+                depth, end = 0, None
+                for j in range(i + 1, len(text)):
+                    if text[j] == '{':
+                        depth += 1
+                    elif text[j] == '}':
+                        depth -= 1
+                    if depth == 0:
+                        end = j
+                        break
+                if end is not None:
+                    body = text[i:end + 1]
+                    if body in VALID:
+                        out.append((i, end + 1))
+                        i = end + 1
+                        continue
+                    if '@{' in body[2:]:
+                        return None
+                    i = end + 1                       # an ill-formed balanced marker is plain text
+                    continue
+            i += 1
+        return out
+
+    def on_call(it, fn, n, env):
+        cs = n.get('cs') or ''
+        if cs == L + 'Reference::Parse' and n.get('args'):
+            s_ = it.eval(fn, fn.stmts[n['args'][0]], env)
+            body = bytes(s_).decode('utf-8', 'replace')
+            return Obj(__cls__=L + 'Reference', type=1 if body in VALID else 0, position=Obj(start=0, finish=0), body=body)
+        if cs == L + 'Reference::IsValid' and 'obj' in n:
+            o = it.eval(fn, fn.stmts[n['obj']], env)
+            return bool(o['type'])
+        if cs == '__assert_fail':
+            return None
+        return NOT_HANDLED
+    bad, cases, skipped = None, 0, 0
+    try:
+        for k in range(0, 5 if thorough else 4):
+            for combo in itertools.product(pieces, repeat=k):
+                if k >= 3 and not any(p in VALID for p in combo):
+                    continue
+                text = ''.join(combo)
+                want = oracle(text)
+                if want is None:
+                    skipped += 1
+                    continue
+                cases += 1
+                got = Interp(db, on_call=on_call, max_steps=400000).call(ea, [text.encode('utf-8')])
+                got_r = [(r['position']['start'], r['position']['finish']) for r in (got or [])]
+                if got_r != want and bad is None:
+                    bad = 'ExtractAll(%r) finds %s; the well-formed references are at %s' % (text, got_r, want)
+                    if not thorough:
+                        break
+            if bad and not thorough:
+                break
+    except OutOfFragment as e:
+        r9.broken('ExtractAll outside the evaluable fragment: %s' % e)
+        return
+    rep.note('r9_texts', cases)
+    rep.note('r9_texts_left_open_by_the_definition', skipped)
+    if bad:
+        r9.violation('ExtractAll', '%s:%d' % (ea.file, ea.line), bad)
+    else:
+        r9.ok('ExtractAll', '%d texts of up to %d pieces: found = well-formed occurrences' % (cases, 4 if thorough else 3), '%s:%d' % (ea.file, ea.line))
+
+
+def _offset_faithful(db, rep):
+    """r10: Reference::Parse interpreted on collaboration references whose offset is written with up to seven characters: the parsed reference
+    carries exactly the offset written, or the text is not a reference. A narrowing conversion that wraps (65537 -> 1) makes a reference point at
+    a different master and be written back differently."""
+    r10 = rep.rule('r10', 'OFFSET-FAITHFUL: a collaboration reference is parsed with exactly the offset written, or refused; never with a wrapped one', 1)
+    f = db.fn(L + 'Reference::Parse', required=False)
+    if f is None:
+        r10.broken('anchor vanished: Reference::Parse')
+        return
+
+    def on_call(it, fn, n, env):
+        cs = n.get('cs') or ''
+        if cs in ('std::stoi', 'std::stol', 'std::stoll') and n.get('args'):
+            s_ = bytes(it.eval(fn, fn.stmts[n['args'][0]], env)).decode('ascii', 'replace')
+            try:
+                v = int(s_)
+            except ValueError:
+                raise OutOfFragment('%s("%s") throws std::invalid_argument' % (cs, s_))
+            lim = 2 ** 31 if cs == 'std::stoi' else 2 ** 63
+            if not (-lim <= v < lim):
+                raise OutOfFragment('%s("%s") throws std::out_of_range' % (cs, s_))
+            return v
+        if cs in ('isalpha', 'std::isalpha') and n.get('args'):
+            c = it.eval(fn, fn.stmts[n['args'][0]], env)
+            return int(65 <= c <= 90 or 97 <= c <= 122)
+        if cs in ('isdigit', 'std::isdigit') and n.get('args'):
+            c = it.eval(fn, fn.stmts[n['args'][0]], env)
+            return int(48 <= c <= 57)
+        if cs in ('isspace', 'std::isspace') and n.get('args'):
+            c = it.eval(fn, fn.stmts[n['args'][0]], env)
+            return int(c in (32, 9, 10, 11, 12, 13))
+        if cs == '__assert_fail':
+            return None
+        return NOT_HANDLED
+    offsets = [0, 1, -1, 7, 12, -12, 32767, -32768, 32768, -32769, 40000, 65535, 65536, 65537, -65537, 99999, -99999, 100000, 999999, 1000000]
+    bad = None
+    try:
+        for off in offsets:
+            text = '@{%d|basic}' % off
+            r = Interp(db, on_call=on_call).call(f, [text.encode()])
+            valid = isinstance(r, Obj) and r.get('type') not in (0, None) and isinstance(r.get('data'), Obj)
+            if valid:
+                got = r['data'].get('offset')
+                if got != off and bad is None:
+                    bad = 'Parse("%s") is a collaboration reference with offset %s: the offset written is %d' % (text, got, off)
+            elif -2 ** 15 <= off < 2 ** 15 and bad is None:
+                bad = 'Parse("%s") is refused although the offset fits' % text
+    except OutOfFragment as e:
+        if 'throws' in str(e):
+            bad = 'Parse faults: %s' % e
+        else:
+            r10.broken('Reference::Parse outside the evaluable fragment: %s' % e)
+            return
+    if bad:
+        r10.violation('Parse:offset', '%s:%d' % (f.file, f.line), bad)
+    else:
+        r10.ok('Parse:offset', '%d offsets between -99999 and 1000000: carried exactly or refused' % len(offsets), '%s:%d' % (f.file, f.line))
+
+
+def _stored_valid(db, rep):
+    """r11: the references a RefsManager stores are valid ones. ResolveIt / OutputRefs / FindMaster read the variant of a stored reference
+    with std::get after testing only IsEntity(): a stored reference of the invalid kind makes std::get throw. Every writer of `refs` must
+    therefore store only references that passed IsValid() (ExtractAll filters; a caller-supplied reference must be tested)."""
+    from engine.cfgq import normalise_cond
+    r11 = rep.rule('r11', 'STORED-VALID: every reference placed into RefsManager::refs passed IsValid() (taken from ExtractAll, or a caller-supplied one tested before it is stored)', 2)
+    RMc = L + 'RefsManager'
+    ea = db.fn(L + 'Reference::ExtractAll', required=False)
+    if ea is None:
+        r11.broken('anchor vanished: Reference::ExtractAll')
+        return
+    # ExtractAll keeps only valid references
+    stores = [n for n in ea.calls() if (n.get('cs') or '').endswith(('::emplace_back', '::push_back'))]
+    ok = bool(stores)
+    for n in stores:
+        pos = ea.position_of(n)
+        g = [normalise_cond(ea, c, pol) for c, pol in (dominating_guards(ea, pos) if pos is not None else [])]
+        if not any(pol and 'IsValid' in (c.get('txt') or '') for c, pol in g if c is not None):
+            ok = False
+    if ok:
+        r11.ok('ExtractAll', 'stores a parsed reference only under IsValid()', '%s:%d' % (ea.file, ea.line))
+    else:
+        r11.violation('ExtractAll', '%s:%d' % (ea.file, ea.line), 'ExtractAll can return a reference of the invalid kind')
+    n_w = 0
+    for f in db.methods_of(RMc):
+        for n in f.calls():
+            cs = n.get('cs') or ''
+            last = cs.split('::')[-1]
+            if not cs.startswith('std::vector::') or last not in ('emplace', 'insert', 'emplace_back', 'push_back') or 'obj' not in n:
+                continue
+            o = f.strip(f.stmts[n['obj']])
+            if o is None or o.get('member') != 'refs':
+                continue
+            n_w += 1
+            val = f.strip(f.stmts[n['args'][-1]])
+            srcs = [x for x in f.walk(val) if x['k'] == 'DeclRefExpr' and x.get('dk') in ('param', 'local')]
+            inst = '%s:%s' % (f.name.split('::')[-1], last)
+            pos = f.position_of(n)
+            g = [normalise_cond(f, c, pol) for c, pol in (dominating_guards(f, pos) if pos is not None else [])]
+            names = {x.get('name') for x in srcs}
+            tested = any(pol and c is not None and 'IsValid' in (c.get('txt') or '') and any(nm and nm in (c.get('txt') or '') for nm in names) for c, pol in g)
+            if tested:
+                r11.ok(inst, 'the stored reference was tested with IsValid()', f.loc(n))
+            else:
+                r11.violation(inst, f.loc(n), '`%s` stores a caller-supplied reference without testing IsValid(): an invalid one reaches std::get<CollaborationRef> in ResolveIt (std::bad_variant_access) after the list was already changed' % (n.get('txt') or '')[:60])
+    for f in db.methods_of(RMc):
+        for n in f.walk():
+            if n['k'] in ('CXXOperatorCallExpr', 'BinaryOperator') and n.get('op') == '=':
+                kids = [f.stmts[a] for a in n['args']] if n['k'] == 'CXXOperatorCallExpr' else f.children(n)
+                l = f.strip(kids[0])
+                if l is not None and l.get('member') == 'refs' and l['k'] == 'MemberExpr':
+                    n_w += 1
+                    inst = '%s:assign' % f.name.split('::')[-1]
+                    if any(c.get('cs') == L + 'Reference::ExtractAll' for c in f.calls(kids[1])) or not list(f.calls(kids[1])):
+                        r11.ok(inst, 'assigned from ExtractAll / copied from another manager', f.loc(n), nontrivial=False)
+                    else:
+                        r11.violation(inst, f.loc(n), 'refs assigned from `%s`, which is not known to hold only valid references' % (f.stmts[n['args'][1]].get('txt', '') if n['k'] == 'CXXOperatorCallExpr' else '')[:60])
+    rep.note('r11_writers_of_refs', n_w)
